@@ -190,84 +190,7 @@ pub fn judge(col: &mut Collector, f: &Fault, with_async: bool, all_apis: bool) {
     }
 }
 
-fn int_bytes(wire: Proto, width: usize, v: i64) -> Vec<u8> {
-    match (wire, width) {
-        (Proto::Binary, 4) => (v as i32).to_be_bytes().to_vec(),
-        (Proto::BinaryLe, 4) => (v as i32).to_le_bytes().to_vec(),
-        (Proto::Binary, 2) => (v as i16).to_be_bytes().to_vec(),
-        (Proto::BinaryLe, 2) => (v as i16).to_le_bytes().to_vec(),
-        _ => unreachable!(),
-    }
-}
-
-fn varint(mut n: u64) -> Vec<u8> {
-    let mut o = Vec::new();
-    loop {
-        let b = (n & 0x7f) as u8;
-        n >>= 7;
-        if n == 0 {
-            o.push(b);
-            break;
-        }
-        o.push(b | 0x80);
-    }
-    o
-}
-
-/// all replacement byte strings for one annotated position
-fn replacements(wire: Proto, a: &Ann, total: usize) -> Vec<Vec<u8>> {
-    let rem = (total - a.off - a.len) as i64;
-    let mut out = Vec::new();
-    match a.kind {
-        PosKind::BinLen | PosKind::Count => {
-            let vals = [-1i64, 0, 1, rem - 1, rem, rem + 1, 0x7fff_ffff, 0x7fff_fff0, 0x0100_0000, -0x8000_0000];
-            match wire {
-                Proto::Compact => {
-                    if a.len == 1 && a.kind == PosKind::Count {
-                        // empty-map byte or (never: short-form list header is an ElemType ann)
-                    }
-                    for v in vals {
-                        out.push(varint(v as u32 as u64));
-                    }
-                    // over-long / unterminated varints
-                    out.push(vec![0xff; 5]);
-                    out.push(vec![0x80, 0x80, 0x80, 0x80, 0x80, 0x00]);
-                    out.push(vec![0xff, 0xff, 0xff, 0xff, 0xff, 0xff, 0xff, 0xff, 0xff, 0x01]);
-                    out.push(vec![0xff; 11]);
-                }
-                _ => {
-                    for v in vals {
-                        out.push(int_bytes(wire, 4, v));
-                    }
-                }
-            }
-        }
-        PosKind::FieldId => {
-            let vals = [-1i64, 0, 1, 32767, -32768, 255, 256];
-            match wire {
-                Proto::Compact => {
-                    for v in vals {
-                        let z = (((v as i32) << 1) ^ ((v as i32) >> 31)) as u32;
-                        out.push(varint(z as u64));
-                    }
-                    out.push(vec![0xff; 3]);
-                    out.push(vec![0xff, 0xff, 0xff, 0x7f]);
-                }
-                _ => {
-                    for v in vals {
-                        out.push(int_bytes(wire, 2, v));
-                    }
-                }
-            }
-        }
-        PosKind::FieldType | PosKind::ElemType => {
-            for b in [0u8, 1, 2, 5, 0x0c, 0x0d, 0x0f, 0x10, 0x11, 0x7f, 0x80, 0xf1, 0xf5, 0xfc, 0xff, 0x1c, 0x1b, 0xf9] {
-                out.push(vec![b]);
-            }
-        }
-    }
-    out
-}
+use vcore::refcodec::fault_replacements as replacements;
 
 fn hash_fault(prot: Prot, t: T, b: &[u8]) -> u64 {
     let mut h = std::collections::hash_map::DefaultHasher::new();
